@@ -161,10 +161,15 @@ fn c03_paid_put() {
         // altered after signing
         let on_q1 = include_q1 && choice(2) == 1;
         let q = if on_q1 { &mut q1 } else { &mut q0 };
-        match choice(4) {
+        match choice(5) {
             0 => q.signature = ideal_sign(9, &q.bytes_for_sig()),
             1 => q.signature = vec![1, 2, 3],
             2 => q.quoting_metrics.received_payment_count += 1,
+            3 => {
+                // a quote made, keyed and validly signed by another identity, filed under the declared payee's id
+                let (content, ts) = (q.content, q.timestamp);
+                *q = quote(8, content, ts);
+            }
             _ => forged_extra = true,
         }
     }
